@@ -260,11 +260,41 @@ func c01Walk(c *Ctx, s *scanShape) {
 	r.Check("C01.2", "load-path", reads[0].Common().Args[0] == ssa.Value(cb.Params[0]), c.pos(reads[0]), "the file read is the walked entry itself")
 	// directories: nil only for the root, SkipDir otherwise
 	nDir := 0
+	type dirCase struct {
+		ret *ssa.Return
+		gs  []string
+	}
+	var cases []dirCase
+	seenCase := map[string]bool{}
 	for _, ret := range ir.NormalReturns(cb) {
-		g2 := c.guardsOf(cb, ret)
+		// per feasible way to the return (`case a && b:` followed by `case a:` reaches the
+		// second only with !b), with the dominating conditions added
+		dom := c.guardsOf(cb, ret)
+		for _, gs := range c.feasiblePathConds(cb, ret) {
+			all := append(append([]string{}, dom...), gs...)
+			sort.Strings(all)
+			var uniq []string
+			for i, g := range all {
+				if i == 0 || g != all[i-1] {
+					uniq = append(uniq, g)
+				}
+			}
+			k := c.pos(ret) + strings.Join(uniq, "&")
+			if !seenCase[k] {
+				seenCase[k] = true
+				cases = append(cases, dirCase{ret, uniq})
+			}
+		}
+	}
+	for _, dc := range cases {
+		ret, g2 := dc.ret, dc.gs
 		isDir := false
 		rootOnly := false
 		for _, g := range g2 {
+			if strings.HasPrefix(g, "!IsDir(") {
+				isDir = false
+				break
+			}
 			if strings.HasPrefix(g, "IsDir(") {
 				isDir = true
 				if len(cb.Params) == 3 && g != "IsDir(param:"+cb.Params[1].Name()+")" {
@@ -294,7 +324,16 @@ func c01Walk(c *Ctx, s *scanShape) {
 			r.Violation("C01.2", "dir:descend", c.pos(ret), fmt.Sprintf("for a directory entry the callback returns %s under %v: sub-directories would be descended into, or the directory itself skipped", d, g2))
 		}
 	}
-	if nDir < 2 {
+	_ = nDir
+	dirRets := map[*ssa.Return]bool{}
+	for _, dc := range cases {
+		for _, g := range dc.gs {
+			if strings.HasPrefix(g, "IsDir(") {
+				dirRets[dc.ret] = true
+			}
+		}
+	}
+	if len(dirRets) < 2 {
 		r.Violation("C01.2", "dir:cases", c.U.Pos(cb.Pos()), "the walk callback does not distinguish the scanned directory from sub-directories")
 	}
 }
